@@ -217,7 +217,9 @@ theorem convert_noPanic (v : GoVal) (t : ParamTy) : NoPanicRes (convert v t) := 
     · split
       · trivial
       · split <;> trivial
-    all_goals trivial
+    all_goals first
+      | trivial
+      | exact NoPanicRes.bind (NoPanicRes.of_isPanic (MapOrder.sortedMapEntries_isPanic _)) (fun _ => trivial)
   · split
     · trivial
     · split <;> trivial
